@@ -37,10 +37,26 @@ enum Col {
     Fsb,
     /// `true`: the domain contains the empty list, whose hash collides with NULL's
     ListInt(bool),
+    /// view column whose domain contains 11/12/13-byte values and values large enough to fill and
+    /// release whole 2 MiB data blocks (`BYTE_VIEW_MAX_BLOCK_SIZE`); `true` = BinaryView
+    BigView(bool),
 }
 
 const INTS: [i64; 6] = [0, 1, 2, 7, 100, 127];
 const STRS: [&str; 6] = ["", "a", "ab", "abcdefghijkl", "abcdefghijklm", "abcdefghijklm_nopqrstuvwxyz0123456789"];
+/// domain of `Col::BigView`: 0 "", 1 eleven bytes, 2 twelve bytes (largest inline value), 3 thirteen
+/// bytes (smallest out-of-line value), 4 another twelve bytes, 5/6/7 three 1 000 000-byte values
+/// (two fit into one 2 MiB block, the third opens the next), 8 300 000 bytes, 9 97 152 bytes
+/// (= 2 MiB − 2 000 000: fills a block exactly)
+fn big_dom() -> Vec<String> {
+    let mut v: Vec<String> = vec!["".into(), "elevenbytes".into(), "twelve_bytes".into(), "thirteenbytes".into(), "TWELVE_BYTE2".into()];
+    v.push("a".repeat(1_000_000));
+    v.push("b".repeat(1_000_000));
+    v.push("c".repeat(1_000_000));
+    v.push("d".repeat(300_000));
+    v.push("e".repeat(2 * 1024 * 1024 - 2_000_000));
+    v
+}
 const FSBS: [&[u8; 3]; 4] = [b"abc", b"abd", &[0, 0, 0], b"zzz"];
 
 impl Col {
@@ -52,6 +68,8 @@ impl Col {
             Col::Bool => DataType::Boolean,
             Col::DictStr => DataType::Dictionary(Box::new(DataType::Int32), Box::new(DataType::Utf8)),
             Col::Fsb => DataType::FixedSizeBinary(3),
+            Col::BigView(false) => DataType::Utf8View,
+            Col::BigView(true) => DataType::BinaryView,
             Col::ListInt(_) => DataType::List(Arc::new(Field::new_list_field(DataType::Int32, true))),
         }
     }
@@ -63,6 +81,7 @@ impl Col {
             Col::Bool => 2,
             Col::Fsb => FSBS.len(),
             Col::ListInt(_) => 5,
+            Col::BigView(_) => 10,
         }
     }
     /// array for the given cells: (code, variant); variant selects an equivalent representation
@@ -92,6 +111,14 @@ impl Col {
                 cast(&a, d).unwrap()
             }
             Col::Bool => Arc::new(cells.iter().map(|c| c.map(|(k, _)| k == 1)).collect::<BooleanArray>()),
+            Col::BigView(bin) => {
+                let dom = big_dom();
+                if *bin {
+                    Arc::new(cells.iter().map(|c| c.map(|(k, _)| dom[k].as_bytes())).collect::<BinaryViewArray>())
+                } else {
+                    Arc::new(cells.iter().map(|c| c.map(|(k, _)| dom[k].as_str())).collect::<StringViewArray>())
+                }
+            }
             Col::DictStr => {
                 // dictionary layout depends on the batch content and on the variant of the first cell
                 let rev = cells.iter().flatten().next().map(|(_, v)| v % 2 == 1).unwrap_or(false);
@@ -205,6 +232,7 @@ fn key_txt(k: &Key) -> String {
     k.iter().map(|c| c.map(|x| x.to_string()).unwrap_or_else(|| "n".into())).collect::<Vec<_>>().join(",")
 }
 
+#[derive(Clone)]
 enum HOp {
     Intern(Vec<Vec<Option<(usize, u64)>>>), // rows × cols
     EmitAll,
@@ -233,8 +261,8 @@ fn decode(cols: &[ArrayRef], tables: &[Vec<String>]) -> Result<Vec<Key>, String>
     Ok(out)
 }
 
-fn one_history(run: &mut Run, rng: &mut Rng, sc: &SchemaCase, h: u64) {
-    let nullable = !rng.chance(1, 8);
+fn one_history(run: &mut Run, rng: &mut Rng, sc: &SchemaCase, h: u64, script: Option<&[HOp]>) {
+    let nullable = script.is_some() || !rng.chance(1, 8);
     let schema = Arc::new(Schema::new(sc.cols.iter().enumerate().map(|(i, c)| Field::new(format!("c{i}"), c.data_type(), nullable)).collect::<Vec<_>>()));
     let mut gv: Box<dyn GroupValues> = match new_group_values(schema.clone(), &GroupOrdering::None) {
         Ok(g) => g,
@@ -243,18 +271,31 @@ fn one_history(run: &mut Run, rng: &mut Rng, sc: &SchemaCase, h: u64) {
             return;
         }
     };
-    // text of every domain value per column
-    let tables: Vec<Vec<String>> = sc
-        .cols
-        .iter()
-        .map(|c| {
-            let cells: Vec<Option<(usize, u64)>> = (0..c.domain()).map(|k| Some((k, 0))).collect();
-            texts(&c.make(&cells)).into_iter().map(|t| t.unwrap()).collect()
-        })
-        .collect();
+    // text of every domain value per column (cached per schema: the big-view domains are megabytes)
+    static TABLES: std::sync::OnceLock<std::sync::Mutex<std::collections::HashMap<String, Arc<Vec<Vec<String>>>>>> = std::sync::OnceLock::new();
+    let tables: Arc<Vec<Vec<String>>> = {
+        let mut cache = TABLES.get_or_init(Default::default).lock().unwrap();
+        cache
+            .entry(sc.name.to_string())
+            .or_insert_with(|| {
+                Arc::new(
+                    sc.cols
+                        .iter()
+                        .map(|c| {
+                            let cells: Vec<Option<(usize, u64)>> = (0..c.domain()).map(|k| Some((k, 0))).collect();
+                            texts(&c.make(&cells)).into_iter().map(|t| t.unwrap()).collect()
+                        })
+                        .collect(),
+                )
+            })
+            .clone()
+    };
     let dom_cap = *rng.pick(&[2usize, 2, 3, 6]);
     let hashmod = rng.below(4);
-    let len = 3 + rng.below(if run.thorough() { 30 } else { 12 }) as usize;
+    let len = match script {
+        Some(sc) => sc.len(),
+        None => 3 + rng.below(if run.thorough() { 30 } else { 12 }) as usize,
+    };
     let mut req = format!("({} {hashmod}", sc.kind);
     let mut ans: Vec<String> = vec![];
     let mut live: Vec<Key> = vec![]; // the oracle's view: key of every live id, built from impl answers only
@@ -263,14 +304,16 @@ fn one_history(run: &mut Run, rng: &mut Rng, sc: &SchemaCase, h: u64) {
     // GroupValuesColumn: an emit(All) of a non-empty store not (yet) followed by clear_shrink
     let mut stale_emit_all = false;
     // builders that use `get_unchecked` abort the process (UB check) when driven with the stale table
-    let abort_prone = sc.kind != "prim" && sc.kind != "bytes" && sc.kind != "bool" && sc.cols.len() > 1 && sc.cols.iter().any(|c| matches!(c, Col::Str(_) | Col::Bin(_)));
+    let abort_prone = sc.kind != "prim" && sc.kind != "bytes" && sc.kind != "bool" && sc.cols.len() > 1 && sc.cols.iter().any(|c| matches!(c, Col::Str(_) | Col::Bin(_) | Col::BigView(_)));
     let mut force_clear = false;
     let mut kinds = std::collections::BTreeSet::new();
     let mut interned_once = false;
     for step in 0..len {
         let cur_len = gv.len();
         let c = rng.below(100);
-        let op = if force_clear {
+        let op = if let Some(sc) = script {
+            sc[step].clone()
+        } else if force_clear {
             force_clear = false;
             HOp::Clear
         } else if c < 55 || step == 0 && c < 90 {
@@ -512,8 +555,95 @@ pub fn run(run: &mut Run, args: &Args) {
     let mut h = 0;
     for sc in &scs {
         for _ in 0..per_schema {
-            one_history(run, &mut rng, sc, h);
+            one_history(run, &mut rng, sc, h, None);
             h += 1;
+        }
+    }
+    directed(run, &mut rng, &scs, h);
+}
+
+fn row_of(sc: &SchemaCase, first: Option<usize>) -> Vec<Option<(usize, u64)>> {
+    // the first column carries the key, the others a constant; a NULL key is NULL in every column
+    sc.cols.iter().enumerate().map(|(i, c)| first.map(|k| if i == 0 { (k % c.domain(), 0) } else { (1 % c.domain(), 0) })).collect()
+}
+
+/// hand-shaped histories for boundaries random histories do not reach
+fn directed(run: &mut Run, rng: &mut Rng, scs: &[SchemaCase], mut h: u64) {
+    // (1) byte-view data blocks: enough long values to fill (exactly / nearly) a 2 MiB block, `First(n)`
+    //     at every cut (so that whole blocks, partial blocks and no block are released), remaining keys of
+    //     exactly 11 / 12 / 13 bytes, re-interning of everything afterwards, a second partial emit, final
+    //     emit. Multi-column store (`ByteViewGroupValueBuilder::take_n`) and the single-column store
+    //     (`ArrowBytesViewMap`), Utf8View and BinaryView.
+    let big: Vec<SchemaCase> = vec![
+        SchemaCase { name: "big utf8view+int64 (2 MiB blocks)", kind: "spec", cols: vec![Col::BigView(false), Col::FromInt(DataType::Int64)] },
+        SchemaCase { name: "big binaryview+bool (2 MiB blocks)", kind: "spec", cols: vec![Col::BigView(true), Col::Bool] },
+        SchemaCase { name: "big utf8view single (2 MiB blocks)", kind: "bytes", cols: vec![Col::BigView(false)] },
+        SchemaCase { name: "big binaryview single (2 MiB blocks)", kind: "bytes", cols: vec![Col::BigView(true)] },
+    ];
+    let orders: Vec<Vec<Option<usize>>> = vec![
+        vec![Some(5), Some(6), Some(2), Some(7), Some(1), Some(3), Some(8), Some(4)],
+        vec![Some(2), Some(5), Some(3), Some(6), Some(9), Some(4), Some(7), Some(1)],
+        vec![Some(5), Some(6), Some(2), None, Some(7), Some(3)],
+        vec![Some(4), Some(2), Some(1), Some(3), Some(0)],
+        vec![Some(5), Some(2), Some(6), Some(4), Some(9), Some(1), Some(8), Some(3), Some(7)],
+    ];
+    for sc in &big {
+        for order in &orders {
+            for n in 1..order.len() {
+                let rows: Vec<_> = order.iter().map(|k| row_of(sc, *k)).collect();
+                let mut dup = rows.clone();
+                dup.extend(rows.iter().take(2).cloned());
+                let mut rev = rows.clone();
+                rev.reverse();
+                let script = vec![HOp::Intern(dup), HOp::Intern(rev.clone()), HOp::EmitFirst(n), HOp::Intern(rows.clone()), HOp::EmitFirst(1), HOp::Intern(rev), HOp::EmitAll];
+                one_history(run, rng, sc, h, Some(&script));
+                run.count("directed:view-block-release");
+                h += 1;
+            }
+        }
+    }
+    // (2) NULL-buffer fast paths: no NULL seen before a `First(n)`, first NULL afterwards; and the NULL
+    //     group emitted by `First(1)` and re-created. Every schema.
+    for sc in scs {
+        let k = |i: usize| row_of(sc, Some(i));
+        let nul = row_of(sc, None);
+        let s1 = vec![
+            HOp::Intern(vec![k(0), k(1), k(0), k(2), k(3)]),
+            HOp::EmitFirst(2.min(sc.cols[0].domain())),
+            HOp::Intern(vec![nul.clone(), k(2), k(3)]),
+            HOp::EmitFirst(1),
+            HOp::Intern(vec![k(0), nul.clone(), k(3)]),
+            HOp::EmitAll,
+        ];
+        let s2 = vec![
+            HOp::Intern(vec![nul.clone(), k(0), k(1)]),
+            HOp::EmitFirst(1),
+            HOp::Intern(vec![k(0), nul.clone()]),
+            HOp::EmitFirst(2),
+            HOp::Intern(vec![k(1), nul.clone()]),
+            HOp::EmitAll,
+        ];
+        for s in [s1, s2] {
+            one_history(run, rng, sc, h, Some(&s));
+            run.count("directed:null-fast-path");
+            h += 1;
+        }
+    }
+    // (3) boolean store: every first-seen order of false / true / NULL × every `First(n)` (false's, true's
+    //     and NULL's id equal to n, n−1, n+1), then everything re-interned
+    if let Some(sc) = scs.iter().find(|s| s.kind == "bool") {
+        let vals = [Some(0usize), Some(1), None];
+        for perm in [[0, 1, 2], [0, 2, 1], [1, 0, 2], [1, 2, 0], [2, 0, 1], [2, 1, 0]] {
+            for upto in 1..=3usize {
+                for n in 0..=upto {
+                    let rows: Vec<_> = perm.iter().take(upto).map(|i| row_of(sc, vals[*i])).collect();
+                    let all: Vec<_> = vals.iter().map(|v| row_of(sc, *v)).collect();
+                    let s = vec![HOp::Intern(rows), HOp::EmitFirst(n), HOp::Intern(all.clone()), HOp::EmitFirst(1), HOp::Intern(all), HOp::EmitAll];
+                    one_history(run, rng, sc, h, Some(&s));
+                    run.count("directed:boolean-ids");
+                    h += 1;
+                }
+            }
         }
     }
 }
